@@ -645,21 +645,12 @@ class Evaluator(abc.ABC):
             records_list.append(result)
 
         if len(records_list) != 0:
-            mode = "a" if self._start_dumping else "w"
+            if not (self._start_dumping):
+                self._columns_dumped = records_list[0].keys()
 
-            with open(os.path.join(log_dir, filename), mode) as fp:
-                if not (self._start_dumping):
-                    self._columns_dumped = records_list[0].keys()
-
-                if self._columns_dumped is not None:
-                    writer = csv.DictWriter(fp, self._columns_dumped, extrasaction="ignore")
-
-                    if not (self._start_dumping):
-                        writer.writeheader()
-                        self._start_dumping = True
-
-                    writer.writerows(records_list)
-                    self.jobs_done = []
+            if self._columns_dumped is not None:
+                self._write_rows_to_csv(os.path.join(log_dir, filename), records_list)
+                self.jobs_done = []
 
     def _dump_jobs_done_to_csv_as_hpo_format(
         self, log_dir: str = ".", filename="results.csv", flush: bool = False
@@ -725,32 +716,43 @@ class Evaluator(abc.ABC):
             resultsList.append(result)
 
         if len(resultsList) != 0:
-            mode = "a" if self._start_dumping else "w"
+            if not (self._start_dumping):
+                for result in resultsList:
+                    # Waiting to start receiving non-failed jobs before dumping results
+                    is_single_obj_and_has_success = (
+                        "objective" in result and type(result["objective"]) is not str
+                    )
+                    is_multi_obj_and_has_success = (
+                        "objective_0" in result and type(result["objective_0"]) is not str
+                    )
+                    if is_single_obj_and_has_success or is_multi_obj_and_has_success or flush:
+                        self._columns_dumped = result.keys()
 
-            with open(os.path.join(log_dir, filename), mode) as fp:
-                if not (self._start_dumping):
-                    for result in resultsList:
-                        # Waiting to start receiving non-failed jobs before dumping results
-                        is_single_obj_and_has_success = (
-                            "objective" in result and type(result["objective"]) is not str
-                        )
-                        is_multi_obj_and_has_success = (
-                            "objective_0" in result and type(result["objective_0"]) is not str
-                        )
-                        if is_single_obj_and_has_success or is_multi_obj_and_has_success or flush:
-                            self._columns_dumped = result.keys()
+                        break
 
-                            break
+            if self._columns_dumped is not None:
+                self._write_rows_to_csv(os.path.join(log_dir, filename), resultsList)
+                self.jobs_done = []
 
-                if self._columns_dumped is not None:
-                    writer = csv.DictWriter(fp, self._columns_dumped, extrasaction="ignore")
+    def _write_rows_to_csv(self, path: str, rows: List[dict]):
+        """Write rows to the CSV file at ``path`` for the columns ``self._columns_dumped``.
 
-                    if not (self._start_dumping):
-                        writer.writeheader()
-                        self._start_dumping = True
-
-                    writer.writerows(resultsList)
-                    self.jobs_done = []
+        The first time, the header and the rows are written to a temporary file which is then
+        moved to ``path``: the CSV file is never visible empty or without its header (e.g., if
+        the process is killed). Then, the rows are appended to the file.
+        """
+        if self._start_dumping:
+            with open(path, "a") as fp:
+                writer = csv.DictWriter(fp, self._columns_dumped, extrasaction="ignore")
+                writer.writerows(rows)
+        else:
+            path_tmp = path + ".tmp"
+            with open(path_tmp, "w") as fp:
+                writer = csv.DictWriter(fp, self._columns_dumped, extrasaction="ignore")
+                writer.writeheader()
+                writer.writerows(rows)
+            os.replace(path_tmp, path)
+            self._start_dumping = True
 
     def dump_evals(self, log_dir: str = ".", filename="results.csv", flush: bool = False):
         deprecated_api(
